@@ -85,7 +85,7 @@ let () =
       g_instantiate_arity = b 7; g_publish_claim_eq = b 8; g_evar_plugs_only = b 9 } in
   Array.iteri (fun i a -> if a = "--guards" then
      g := (match Sys.argv.(i+1) with "pinned" -> guards_pinned | "sound" -> guards_sound
-           | "evp" -> of_bits "1111111111" | s -> of_bits s)) Sys.argv;
+           | s -> of_bits s)) Sys.argv;
   (try while true do
     let line = input_line stdin in
     if String.trim line <> "" then
